@@ -129,6 +129,7 @@ func checkC06(c *Check) {
 	c06RcptMemory(c)
 	c06BodyOnce(c)
 	c06DeepCopyComplete(c, "R11")
+	c07RawLookupError(c, "R12")
 
 	// ---- R2
 	c.Rule("R2", "no verdict is dropped: after an error of checkConnSender / checkRcpt / checkBody / applyResults the function neither reports success nor hands anything to a target", 8)
